@@ -26,6 +26,8 @@ pub struct C15 {
 enum Inb {
     None,
     Query,
+    /// `Query<Q2>`: several required fields, declared in an order that is not the alphabetical one
+    Query2,
     Json,
     Form,
     Multipart,
@@ -35,7 +37,7 @@ struct HMeta {
     inbound: Inb,
     responses: &'static [(u16, Option<&'static str>)],
 }
-const CATALOGUE: [HMeta; 17] = [
+const CATALOGUE: [HMeta; 18] = [
     HMeta { params: &[], inbound: Inb::None, responses: &[(200, Some("text/plain"))] },
     HMeta { params: &[], inbound: Inb::None, responses: &[(200, Some("application/json"))] },
     HMeta { params: &["string"], inbound: Inb::None, responses: &[(200, Some("text/plain"))] },
@@ -53,6 +55,7 @@ const CATALOGUE: [HMeta; 17] = [
     HMeta { params: &[], inbound: Inb::Json, responses: &[(200, Some("application/json"))] },
     HMeta { params: &[], inbound: Inb::None, responses: &[(200, Some("application/json"))] },
     HMeta { params: &[], inbound: Inb::None, responses: &[(200, Some("application/json"))] },
+    HMeta { params: &[], inbound: Inb::Query2, responses: &[(200, Some("text/plain"))] },
 ];
 
 /// a hand-written schema (as a user would write for a type the derive does not cover), using `openapi::bool()`
@@ -98,6 +101,16 @@ impl openapi::Schema for Order {
     fn schema() -> impl Into<openapi::schema::SchemaRef> {
         openapi::component("Order", openapi::object().property("lines", openapi::array(Line::schema())))
     }
+}
+#[derive(Debug, Clone, Serialize, Deserialize, ohkami::openapi::Schema)]
+pub struct Q2 {
+    pub zone: String,
+    pub name: String,
+    pub after: u32,
+    pub limit: Option<u32>,
+}
+async fn h_query2(_q: Query<Q2>) -> &'static str {
+    "ok"
 }
 async fn h_vec_component() -> JSON<Vec<Tg>> {
     JSON(vec![Tg { label: "a".into() }])
@@ -230,7 +243,8 @@ fn reg_op(acc: Option<HandlerSet>, path: &'static str, op: &OOp) -> HandlerSet {
         13 => reg_auth(acc, path, m, a, h_p2_form),
         14 => reg_auth(acc, path, m, a, h_flags),
         15 => reg_auth(acc, path, m, a, h_vec_component),
-        _ => reg_auth(acc, path, m, a, h_nested_vec_component),
+        16 => reg_auth(acc, path, m, a, h_nested_vec_component),
+        _ => reg_auth(acc, path, m, a, h_query2),
     }
 }
 
@@ -446,7 +460,7 @@ fn oapp_strategy(depth: u32) -> BoxedStrategy<OApp> {
         3 => prop_oneof![Just("users"), Just("items"), Just("a"), Just("v1"), Just("me")].prop_map(|s| Seg::S(s.to_string())),
         2 => prop_oneof![Just("id"), Just("name"), Just("p")].prop_map(|s| Seg::P(s.to_string())),
     ];
-    let op = (0usize..5, 0u8..17, prop_oneof![4 => Just(0u8), 1 => Just(1u8), 1 => Just(2u8)]).prop_map(|(m, handler, local_auth)| OOp { method: REG_METHODS[m], handler, local_auth });
+    let op = (0usize..5, 0u8..18, prop_oneof![4 => Just(0u8), 1 => Just(1u8), 1 => Just(2u8)]).prop_map(|(m, handler, local_auth)| OOp { method: REG_METHODS[m], handler, local_auth });
     let route = (vec(seg.clone(), 0..=3), vec(op, 1..=3)).prop_map(|(segs, ops)| OItem::Route { segs, ops });
     let tag = prop::option::weighted(0.3, 0u8..3);
     let auth = prop_oneof![4 => Just(0u8), 1 => Just(1u8), 1 => Just(2u8)];
@@ -491,7 +505,7 @@ fn collect_refs(v: &serde_json::Value, out: &mut Vec<String>) {
 impl Property for C15 {
     type Case = Case;
     const ID: &'static str = "C15";
-    const RULE: &'static str = "generated: applications assembled (hook H1) from a compiled catalogue of 17 handler signatures (0–2 path params of string/integer type, Query/JSON/URLEncoded/Multipart extractors over derived schemas, text/JSON/typed-status/Result returns, components used only below array items), nested mounts with param prefixes or at the root (`\"/\".By(child)`), openapi::Tag, JWT/BasicAuth fangs on any application or locally, handlers with fewer params than the route captures. Oracle: the bytes of the generated document parse as JSON; every embedded schema validates against the JSON Schema 2020-12 meta-schema (Python jsonschema sidecar); every $ref resolves; path/method pairs = flattened route table with :p → {p}; every {p} is a declared required path parameter and the operation's path parameters are the route's params in order; request body media type, query parameters and response statuses as the signature says; security present iff an auth fang is in the operation's chain, and iff the running application answers 401 to the operation's request sent without credentials; one request per documented operation is not 404. Non-trivial = an application with a mount, a path param and at least one extractor; distinct by case.";
+    const RULE: &'static str = "generated: applications assembled (hook H1) from a compiled catalogue of 18 handler signatures (0–2 path params of string/integer type, Query/JSON/URLEncoded/Multipart extractors over derived schemas, text/JSON/typed-status/Result returns, components used only below array items), nested mounts with param prefixes or at the root (`\"/\".By(child)`), openapi::Tag, JWT/BasicAuth fangs on any application or locally, handlers with fewer params than the route captures. Oracle: the bytes of the generated document parse as JSON; every embedded schema validates against the JSON Schema 2020-12 meta-schema (Python jsonschema sidecar); every $ref resolves; path/method pairs = flattened route table with :p → {p}; every {p} is a declared required path parameter and the operation's path parameters are the route's params in order; request body media type, query parameters and response statuses as the signature says; security present iff an auth fang is in the operation's chain, and iff the running application answers 401 to the operation's request sent without credentials; one request per documented operation is not 404. Non-trivial = an application with a mount, a path param and at least one extractor; distinct by case.";
     const ASSUMPTIONS: &'static [&'static str] = &[
         "mounts get a first segment of their own (nodes shared between a mount and outside routes are C01's recorded finding)",
         "operationId uniqueness and tags are not checked (the statement does not list them)",
@@ -639,7 +653,15 @@ impl Property for C15 {
             }
             // query parameters
             let q: Vec<(&str, bool)> = params.iter().filter(|p| p["in"] == "query").map(|p| (p["name"].as_str().unwrap_or(""), p["required"] == true)).collect();
-            let want_q: Vec<(&str, bool)> = if meta.inbound == Inb::Query { vec![("a", true), ("n", false)] } else { vec![] };
+            let want_q: Vec<(&str, bool)> = match meta.inbound {
+                Inb::Query => vec![("a", true), ("n", false)],
+                Inb::Query2 => vec![("zone", true), ("name", true), ("after", true), ("limit", false)],
+                _ => vec![],
+            };
+            // (the order of query parameters carries no meaning)
+            let (mut q, mut want_q) = (q, want_q);
+            q.sort();
+            want_q.sort();
             if q != want_q {
                 obs.fail("query-parameters", format!("{ctx}: query parameters {q:?}, expected {want_q:?}"));
             }
